@@ -19,8 +19,11 @@ NONTRIVIAL = {"reply-delivered", "reply-refused", "noreply-disconnect", "noreply
 def gen_cases(tier, rnd):
     cases = [c for c in rg.scenarios() if c[1][0] == 1]
     cases += rc.load_corpus("C09")
-    n_plain, n_timed = (1500, 160) if tier == "quick" else (30000, 2000)
-    cases += rg.enum_cases(3 if tier == "quick" else 4, 1, 2)
+    n_plain, n_timed = (450, 10) if tier == "quick" else (30000, 2000)
+    enum = rg.enum_cases(3 if tier == "quick" else 4, 1, 2)
+    if tier == "quick":                      # every 5th 3-event sequence, offset chosen by the seed
+        enum = enum[rnd.randrange(5)::5]
+    cases += enum
     for i in range(n_plain):
         cfg = (1, rnd.choice((1, 2, 2, 3, 3, 4, 50)), -1)
         cases.append(("gen%d" % i, cfg, rg.gen_history(rnd, cfg, "c09", rnd.randint(6, 18))))
@@ -47,7 +50,7 @@ def run(ctx):
                 "to force reuse, NO_REPLY_EXPECTED 15%%, unix fds 18%% of fd-capable senders), genuine / duplicate / wrong-serial / third-party / "
                 "to-third-party replies, calls and signals carrying a REPLY_SERIAL, disconnects biased to parties of outstanding calls, RequestName/"
                 "ReleaseName, max_replies_per_connection in {0,1,2,3,4,50}, reply_timeout infinite or %d ms with ticks of %d/%d ms; plus %d "
-                "hand-written boundary scenarios and every sequence of 3 (thorough: 4) events over a 12-event alphabet (calls, genuine / forged / "
+                "hand-written boundary scenarios and every 5th (seed-chosen offset; thorough: every) sequence of 3 (thorough: 4) events over a 12-event alphabet (calls, genuine / forged / "
                 "misdirected / wrong-serial replies, disconnects) after three connects.  non-trivial = at least one step whose outcome is a delivered or refused reply, a NoReply, a limit "
                 "or duplicate-serial refusal; distinct = distinct (configuration, event list)" % (rg.TIMEOUT, rg.TICK_PART, rg.TICK_FULL, len([c for c in rg.scenarios() if c[1][0] == 1])),
         "samples": samples[:10], "input_distribution": r["dist"], "traces_validated_against_impl": len(cases) - r["tainted"],
